@@ -164,16 +164,27 @@ func heartbeat() {
 	}
 }
 
+// stalledSince: total length (ms) of the heartbeat gaps since t0. A measurement window is discarded when the
+// process itself was not scheduled for a third of the threshold or more.
 func stalledSince(t0 time.Time) int {
 	stallMu.Lock()
 	defer stallMu.Unlock()
-	worst := 0
+	total := 0
 	for _, s := range stalls {
-		if s.at.After(t0) && int(s.gap.Milliseconds()) > worst {
-			worst = int(s.gap.Milliseconds())
+		if s.at.After(t0) {
+			total += int(s.gap.Milliseconds())
 		}
 	}
-	return worst
+	if total*3 < *flagTimeoutMs {
+		return 0
+	}
+	return total
+}
+
+func releaseMeasurement(stack string) {
+	measureMu.Lock()
+	measureUsed[stack]--
+	measureMu.Unlock()
 }
 
 // ---------------------------------------------------------------------------------------------
@@ -488,6 +499,7 @@ func (r *run) endCtx(as *askState, wait bool) {
 		return
 	}
 	if g := stalledSince(t0); g > 0 {
+		releaseMeasurement(r.beh.Stack)
 		r.emit(Event{Ev: "Stall", ID: as.k, Node: as.asker.Name, Ms: g, Info: info})
 		return
 	}
@@ -519,8 +531,23 @@ func (r *run) serveOnce(srv *Node) {
 func (r *run) serveLoop(srv *Node) {
 	go func() {
 		defer func() { recover() }()
+		h := r.handler(srv)
+		idle := 0
 		for {
-			if err := srv.serveFn(r.bg, r.handler(srv)); err != nil {
+			called := false
+			err := srv.serveFn(r.bg, func(ctx context.Context, resp []byte, src string, payload []byte) int {
+				called = true
+				return h(ctx, resp, src, payload)
+			})
+			if err != nil {
+				return
+			}
+			// a ServeAsk that reports success without having served anything (a closed hub that lost its
+			// error) would make this loop spin
+			if called {
+				idle = 0
+			} else if idle++; idle >= 3 {
+				r.emit(Event{Ev: "ServeNoop", Node: srv.Name})
 				return
 			}
 		}
@@ -554,7 +581,7 @@ func newRun(b Behaviour) (*run, error) {
 	if b.Family == "concurrent" {
 		na, ns = b.Conc.NodesA, b.Conc.NodesS
 	}
-	st, err := NewStack(b.Stack, na, ns)
+	st, err := NewStack(b.Stack, na, ns, b.ID)
 	if err != nil {
 		return nil, err
 	}
@@ -599,7 +626,7 @@ func (r *run) runScript() {
 		}
 	}
 	short := 300 * time.Millisecond
-	for _, s := range h {
+	for si, s := range h {
 		switch s.Op {
 		case "ask":
 			a, sv := r.nodeByName(s.A), r.nodeByName(s.S)
@@ -617,12 +644,17 @@ func (r *run) runScript() {
 			}
 			as := r.newAsk(s.K, a, sv, c, true, 0, wants[r.rng.Intn(len(wants))], to)
 			if r.st.Manual {
-				r.mbPrepare(as, s)
+				// a colliding pair (same asker, same counter, next step) must fall into one millisecond
+				pair := si+1 < len(h) && h[si+1].Op == "ask" && h[si+1].A == s.A && h[si+1].Ctr == s.Ctr && h[si+1].Now == s.Now
+				r.mbPrepare(as, s, pair)
 			}
 			as.started = true
 			go r.doAsk(as)
 			if r.st.Manual {
 				r.mbCaptureRequest(as)
+				as.mu.Lock()
+				r.emit(Event{Ev: "MbKey", ID: as.k, Node: as.asker.Name, Info: fmt.Sprintf("%d/%d/%s", as.ctr, as.ot, as.server.Name)})
+				as.mu.Unlock()
 			} else {
 				time.Sleep(300 * time.Microsecond)
 			}
